@@ -453,3 +453,24 @@ func Stat(name string) (os.FileInfo, error) {
 	}
 	return os.Stat(name)
 }
+
+// FileIO stands for a *os.File that the code under test hands to an
+// interface-typed parameter: what is written, read and closed through the
+// interface passes the same interposition as direct calls.
+type FileIO struct{ F *os.File }
+
+// IO wraps f.
+func IO(f *os.File) *FileIO { return &FileIO{F: f} }
+
+func (x *FileIO) Write(b []byte) (int, error)       { return FWrite(x.F, b) }
+func (x *FileIO) WriteString(s string) (int, error) { return FWriteString(x.F, s) }
+func (x *FileIO) Close() error                      { return FClose(x.F) }
+
+// Read delivers at most Knob("shortread") bytes per call when that knob is
+// set: a reader may always return fewer bytes than asked for.
+func (x *FileIO) Read(b []byte) (int, error) {
+	if k := Knob("shortread", 0); k > 0 && len(b) > k {
+		b = b[:k]
+	}
+	return x.F.Read(b)
+}
